@@ -1158,6 +1158,19 @@ def check_module(path, tree, names, cls=None):
         if classes[0].decorator_list or classes[0].keywords:
             raise TranslateError("%s: class %s has decorators / a metaclass" % (path, cls))
         scope = classes[0].body
+    # nothing but docstrings, imports and definitions at module level / in the class body: no statement
+    # that could patch a translated function after its definition
+    for n in tree.body:
+        ok = isinstance(n, (ast.Import, ast.ImportFrom, ast.FunctionDef)) or \
+            (isinstance(n, ast.Expr) and isinstance(n.value, ast.Constant) and type(n.value.value) is str) or \
+            (cls is not None and isinstance(n, ast.ClassDef))
+        if not ok:
+            raise TranslateError("%s:%d: unexpected statement at module level (%s)" % (path, n.lineno, type(n).__name__))
+    if cls:
+        for n in scope:
+            if not (isinstance(n, ast.FunctionDef) or
+                    (isinstance(n, ast.Expr) and isinstance(n.value, ast.Constant) and type(n.value.value) is str)):
+                raise TranslateError("%s:%d: unexpected statement in class %s (%s)" % (path, n.lineno, cls, type(n).__name__))
     defs = {}
     for n in scope:
         if isinstance(n, (ast.FunctionDef, ast.AsyncFunctionDef)):
